@@ -70,6 +70,15 @@ def _axis_reduction_sem(m, T_i):
                                  "img": Opaque("ndarray", "IMG", {"shape": tuple(N)}), "metadata": lambda a_, k_, meta=meta: dict(meta)})
                 try:
                     fo.call(init.node, [me, a, d, mode])
+                    # the same axis addressed by its matrix index must configure the same reduction
+                    me_i = SO("self", {"__class__": "AxisReduction"})
+                    fi_ = SF(symbolic=True)
+                    fi_.func_stack.append(init.node)
+                    fi_.call(init.node, [me_i, index, d, mode])
+                    if mode == "sum":
+                        same = (me_i.fields.get("index"), me_i.fields.get("axis")) == (me.fields.get("index"), me.fields.get("axis"))
+                        out.append((f"dim {d}, axis {a!r}: addressed by matrix index {index} or by name gives the same (matrix index, Cartesian axis) pair", same and me.fields.get("index") == index and me.fields.get("axis") == kc,
+                                    f"by name: {(me.fields.get('index'), me.fields.get('axis'))}, by index: {(me_i.fields.get('index'), me_i.fields.get('axis'))}, table: {(index, kc)}"))
                     f2 = SF(symbolic=True)
                     f2.func_stack.append(call.node)
                     f2.fold_all_methods = True
